@@ -508,6 +508,64 @@ def _corrupt_case(args):
     return cnt, out
 
 
+NLARGE = 150003
+
+
+def _large_index_case(args):
+    """One long measurement (150003 events, scalar features only): clean,
+    and with a single index entry off by one at the start, in the middle,
+    beyond 100000 and at the end - each must be reported."""
+    seed, scratch = args
+    d = scratch / f"c13_large_{os.getpid()}"
+    if d.exists():
+        shutil.rmtree(d)
+    d.mkdir()
+    out = []
+    cnt = 0
+    n = NLARGE
+    try:
+        k = np.arange(n)
+        ev = {"deform": 0.01 + (k % 97) * 1e-3,
+              "area_um": 50.0 + (k % 53),
+              "frame": k * 2 + 1, "index": k + 1}
+        base = d / "base.rtdc"
+        gen.write_rtdc(base, ev, meta=gen.complete_meta(n, fl=False))
+        clean = run_checker(base)[0]
+        cnt += 1
+        case = {"kind": "large-index", "seed": seed, "pos": None}
+        if clean:
+            out.append(violation(CK, "own-output-flagged", case,
+                                 f"{n}-event file from the writer: {clean}",
+                                 {"route": "writer", "scope": "large-input"}))
+        for pos in (0, 1, n // 2, 100000, 120000, n - 2, n - 1):
+            for delta in (1, -1):
+                cnt += 1
+                q = d / "c.rtdc"
+                shutil.copy(base, q)
+                with h5py.File(q, "a") as h5:
+                    dsi = h5["events/index"]
+                    dsi[pos] = int(dsi[pos]) + delta
+                case = {"kind": "large-index", "seed": seed, "pos": pos,
+                        "delta": delta}
+                try:
+                    viol = set(run_checker(q)[0])
+                except BaseException as e:
+                    out.append(violation(
+                        CK, "checker-crashed", case,
+                        f"{type(e).__name__}: {e}",
+                        {"exc": type(e).__name__, "what": "index"}))
+                    continue
+                if not (viol - set(clean)):
+                    out.append(violation(
+                        CK, "inconsistency-not-reported", case,
+                        f"index[{pos}] changed by {delta:+d} in a file of "
+                        f"{n} events: violations {sorted(viol)}",
+                        {"what": "index", "scope": "large-input"}))
+    finally:
+        shutil.rmtree(d, ignore_errors=True)
+    return cnt, out
+
+
 def _multichannel_case(args):
     """Files that use several fluorescence channels, also with a gap
     (1 + 3): the writer's own output is clean, the exported and the
@@ -627,6 +685,7 @@ def run(ctx):
                if compatible(i, j)]
     res += par.pmap(_corrupt_case, [
         (flpairs[k::8], False, ctx.seed, scratch, 3) for k in range(8)])
+    res += par.pmap(_large_index_case, [(ctx.seed, scratch)])
     res += par.pmap(_multichannel_case, [
         (ch, ctx.seed, scratch)
         for ch in ((1, 2), (1, 3), (2, 3), (1, 2, 3))])
@@ -671,6 +730,9 @@ def run(ctx):
 
 
 def replay(case, ctx):
+    if case["kind"] == "large-index":
+        return [v for v in _large_index_case((case["seed"], ctx.scratch))[1]
+                if v["case"] == case]
     if case["kind"] == "multichannel":
         return _multichannel_case((tuple(case["chans"]), case["seed"],
                                    ctx.scratch))[1]
